@@ -127,6 +127,28 @@ CLAIMED = {
         ref="3/C13"),
 }
 
+BOUNDED_TECH = "bounded run-time contract evaluation on the real code (labelled bounded; stand-in for the deductive obligations of DESIGN section 3, never counted as proved)"
+for _pid, _text, _note in [
+    ("C02", "Bounded stand-in: GpRegressor with random kernels/means/noise/correlated errors in d<=3 against an independent dense-algebra "
+            "reference (posterior mean, covariance, marginal likelihood and gradient by 4th-order differences, LOO predictions by refitting).",
+     "bounded only; dense linear algebra (Cholesky/solve) is outside the VC generator until the abstract matrix layer exists"),
+    ("C11", "Bounded stand-in: marginal likelihood / LOO scores and their gradients against independent references and finite differences, "
+            "selection of the maximiser among optimiser starts.", "bounded only"),
+    ("C12", "Bounded stand-in: GaussianKDE against the direct kernel sum (truncation bound), normalisation, bandwidth rules, "
+            "scale/shift equivariance, acceptance of any non-degenerate sample and bandwidth.", "bounded only"),
+    ("C16", "Bounded stand-in: GP gradient / spatial-derivative predictions against finite differences of the predictive mean and "
+            "the analytic derivative-covariance formulas for random kernels in d<=3.", "bounded only"),
+    ("C17", "Bounded stand-in: GpLinearInverter posterior mean/covariance against the dense Gaussian conjugate formulas, marginal likelihood "
+            "and its gradient by finite differences.", "bounded only"),
+    ("C18", "Bounded stand-in: acquisition functions against closed forms and finite-difference gradients, proposals inside the bounds, "
+            "add_evaluation appends exactly the new evaluation, caller arrays untouched.", "bounded only"),
+    ("C19", "Bounded stand-in: KDE and UnimodalPdf normalisation, cdf, mode, highest-density intervals and moments against quadrature of "
+            "the estimated density, and their covariance under shifting/rescaling of the data over scales 1e-6..1e6 and locations up to 1e6 sigma.",
+     "bounded only by design: the quantities are outputs of numerical optimisers/quadrature and the named defect class is floating-point "
+     "cancellation, which does not exist over the reals"),
+]:
+    CLAIMED[_pid] = dict(category="exploration", text=_text, note=_note, technique=BOUNDED_TECH, ref="3/" + _pid)
+
 PENDING_REASON = "contracts for this property are not built yet in this revision (see DESIGN.md section 7); not claimed"
 
 def main():
